@@ -129,6 +129,7 @@ PROPS["C16"] = {
     ],
     "assumptions": ["host model: attribute set and positional constructor order of types.CodeType for 3.8 - 3.13 from spec/ref/hosts.json (extracted from and validated against the installed interpreters); field values are abstract tokens (identity + type)",
                     "copy.deepcopy copies the record and shares immutable field values"],
+    "bounded": [("ground.native_roundtrip", "check")],
 }
 
 PROPS["C20"] = {
@@ -272,7 +273,7 @@ _T = {
  "C20": ("The std wrappers are proved to be plumbing into verified code: _StdApi.get_instructions / Bytecode.get_instructions invoke the stream driver exactly once with the API object's own opcode table, the code's own byte string and tables, the line starts computed for that code and line_offset = first_line - co_firstlineno; _StdApi.findlabels returns the CPython label set; the driver get_instructions_bytes is proved (all tables: words for 3.6+, 1/3-byte instructions before) to tile the code with CPython's globally folded operands and to pass the decoder's is_jump_target / starts_line (incl. the first_line shift) through; the decoder and label finders it relies on are proved per table.",
          "object coercion (functions, methods, generators, coroutines, classes, source strings -> code), first_line, argval and the module-level tables are compared with the host's own dis under each of the six hosts only by a bounded differential (ground/std_diff.py; known finding: arg of WITH_EXCEPT_START on 3.13); code objects with an exception table take the exception_entries path that is outside the driver's contract; dict(findlinestarts(..)) is an abstract map tied to its source sequence."),
  "C16": ("codeType2Portable, Code38/Code310/Code311.to_native and Code13.replace are proved, for each host 3.8-3.13 (attribute set and positional constructor order of types.CodeType taken from the real interpreters), to map every field to the same field (in particular the host's real line table and exception table), to choose the portable class of the host's version, and to leave the original object unchanged.",
-         "field values are abstract tokens (identity + type): a plumbing proof; types.CodeType is an external constructor modelled by its positional order; a frame condition (no attribute added to the portable object) is part of the contract."),
+         "field values are abstract tokens (identity + type): a plumbing proof; types.CodeType is an external constructor modelled by its positional order (run on real code objects under each host by a bounded native -> portable -> native round trip); a frame condition (no attribute added to the portable object) is part of the contract."),
  "C19": ("All three line-table encoders behind freeze() are proved with loop invariants against ghost transcriptions of CPython's readers (pyvc HAcc: the byte string under construction is tracked as the state the reader would be in after reading it): Code3.encode_lineno_tab (3.0-3.9; unsigned reader of 3.0-3.5, signed reader of 3.6-3.9, with and without decreasing lines), Code15.encode_lineno_tab (1.5-2.7) and Code310.encode_lineno_tab (3.10 range format, including its nested emitter function and the 'no line' prefix), for every table of strictly increasing offsets whose consecutive lines differ, every first line, every gap size: every appended pair is two bytes in 0..255; whenever the reader would yield a line start it is exactly the table entry it must be; after entry k it has yielded exactly the first k (3.10: k+1) entries and stands at the right offset and line; the 3.10 ranges end at len(co_code). freeze()'s dict/list normalisation and the end-to-end result are additionally round-tripped through xdis's and the matching CPython's decoders (2.7, 3.7-3.10): bounded.",
          "the ghost readers are transcriptions of dis.findlinestarts (<= 3.9 without the 3.8+ end-of-code cut; 3.10 over co_lines()) - trusted, cross-checked by the bounded round trip through the real CPythons; duplicate consecutive lines and equal offsets are outside the proved domain (a dict has distinct offsets; the readers themselves drop duplicate lines); unsigned tables: first offset 0 and lines must not decrease (the encoder skips such entries by design); 3.10: the last entry's range must be non-empty (len(co_code) beyond the last offset)."),
  "C11": ("Exception escape is proved for load_module_from_file_object: for the magic word of every final release, every PyPy magic of the corpus, every other magic in xdis's own tables, the dropbox magics and unknown words, for all file contents of at least 50 bytes (what load_module guarantees) and whatever the code readers do - each external reader may raise an exception of unknown class at its call - the function returns a 7-tuple (or the dropbox decoder's result) or raises ImportError, and closes nothing twice; a frame obligation per function reachable from load_module (151, over an over-approximated call graph) shows no exec/eval/compile/dynamic import/file-system write primitive. Termination, memory and the unmarshaller's own behaviour on corrupt data are covered by a bounded hostile-input sweep (prefixes, byte flips, insertions, adversarial lengths and references, deep nesting, every magic word) under time and address-space limits with CPython audit hooks.",
